@@ -996,10 +996,11 @@ func RuleK6(c *Ctx) {
 		var ks []int64
 		core.AllInstrs(fn, func(i ssa.Instruction) {
 			sh, ok := i.(*ssa.BinOp)
-			if !ok || sh.Op != token.SHL {
+			if !ok || (sh.Op != token.SHL && sh.Op != token.SHR) {
 				return
 			}
-			if one, ok := core.ConstInt(sh.X); !ok || one != 1 {
+			// the mask form 1 << (K - j), or the same bit brought down: x >> (K - j)
+			if one, ok := core.ConstInt(sh.X); sh.Op == token.SHL && (!ok || one != 1) {
 				return
 			}
 			if sub, ok := core.StripConv(sh.Y).(*ssa.BinOp); ok && sub.Op == token.SUB {
@@ -1128,4 +1129,74 @@ func (c *Ctx) k6Identity(rel, name string) {
 		return true
 	})
 	c.Check(got["X"] == "fp.Zero" && got["Y"] == "fp.One" && got["Z"] == "fp.One", "K6", key, lit.Pos(), fmt.Sprintf("identity initialised as X=%s Y=%s Z=%s, expected (Zero, One, One)", got["X"], got["Y"], got["Z"]), "X=fp.Zero() Y=fp.One() Z=fp.One()")
+}
+
+// ---------------------------------------------------------------------------
+// K8 — an OR over the limbs of an element can only be compared with zero
+
+// RuleK8: `(z[3] | z[2] | z[1] | z[0]) == 0` is the zero test of a multi-limb value; the same fold compared with any
+// other constant is not an equality test of the value (it is also true for 1 + 2^64, 1 + 2^128, …): "z is one" is
+// z[0] == 1 together with a zero fold of the other limbs.
+func RuleK8(c *Ctx) {
+	c.Rule("K8", "limb folds: in the field packages an OR over two or more limbs of one element is compared only with 0 (the zero test); compared with another constant it would also hold for values with that constant spread over several limbs, so 'equals k' must test limb 0 against k and the fold of the remaining limbs against 0")
+	n := 0
+	for _, top := range c.P.TopFuncs() {
+		if top.Pkg == nil || !(strings.HasSuffix(top.Pkg.Pkg.Path(), "bandersnatch/fr") || strings.HasSuffix(top.Pkg.Pkg.Path(), "bandersnatch/fp")) {
+			continue
+		}
+		for _, fn := range core.Family(top) {
+			core.AllInstrs(fn, func(i ssa.Instruction) {
+				cmp, ok := i.(*ssa.BinOp)
+				if !ok || (cmp.Op != token.EQL && cmp.Op != token.NEQ) {
+					return
+				}
+				for _, pr := range [][2]ssa.Value{{cmp.X, cmp.Y}, {cmp.Y, cmp.X}} {
+					k, isK := core.ConstInt(pr[1])
+					fold, isOr := pr[0].(*ssa.BinOp)
+					if !isK || !isOr || fold.Op != token.OR {
+						continue
+					}
+					// the leaves of the OR chain
+					var leaves []ssa.Value
+					var walk func(v ssa.Value)
+					walk = func(v ssa.Value) {
+						if b, isB := v.(*ssa.BinOp); isB && b.Op == token.OR {
+							walk(b.X)
+							walk(b.Y)
+							return
+						}
+						leaves = append(leaves, v)
+					}
+					walk(fold)
+					var base ssa.Value
+					limbs := 0
+					for _, l := range leaves {
+						ld, isLd := l.(*ssa.UnOp)
+						if !isLd || ld.Op != token.MUL {
+							continue
+						}
+						ia, isIA := ld.X.(*ssa.IndexAddr)
+						if !isIA {
+							continue
+						}
+						if _, isC := core.ConstInt(ia.Index); !isC {
+							continue
+						}
+						if base == nil || base == ia.X {
+							base = ia.X
+							limbs++
+						}
+					}
+					if limbs < 2 || limbs != len(leaves) {
+						continue
+					}
+					n++
+					c.Saw(core.FnName(fn))
+					key := fmt.Sprintf("%s:fold@%s", core.FnName(fn), c.relInFn(fn, cmp.Pos()))
+					c.Check(k == 0, "K8", key, cmp.Pos(), fmt.Sprintf("%s compares the OR of %d limbs of one value with %d: that also holds when the bits of %d sit in different limbs, so it is not a test for the value %d", core.FnName(fn), limbs, k, k, k), "compared with 0")
+				}
+			})
+		}
+	}
+	c.FloorN("K8", 3, n, "limb folds compared with a constant")
 }
